@@ -2,7 +2,7 @@
     controller model instantiated with integer values and a small algebra of
     cell functions (the same functions are given to the real Calculator /
     ParameterController by harness/props/c07_impl.py). *)
-From CG3 Require Import Lib.PyZ Lib.Val Model.Calc.
+From CG3 Require Import Lib.PyZ Lib.Val Model.Calc Model.CalcScope.
 
 (** cell descriptor: (kind, c, args, recycled)
     kind 0 = OptPar (c = 0: OptPar, c = 1: optimiser transform v -> 3v+1)
@@ -157,7 +157,80 @@ Definition run_rcase (c : bool * zsetting * zsetting) : val :=
   VL [VL (map VB (rule_keys Z r));
       obs_setting (import Z Z.ltb (fun v => negb (v =? 0)) 0 10000000 numeric (to_setting cur) r)].
 
+(** ** scope-table runner.  Values are integers (the harness maps the floats of a
+    case to integers order-preservingly).  A cell is (edge, bin, locus) by category
+    number; a setting (group index, const, lower, value, upper). *)
+Definition zcell := (Z * Z * Z)%type.
+Definition zstg := (Z * bool * Z * Z * Z)%type.
+Definition zscope := (option (list Z) * option (list Z) * option (list Z))%type.
+Definition zrule := (zscope * option bool * bool * option Z * option Z * option Z)%type.
+Inductive zsop := ZRule (r : zrule) | ZUpdate (l : list (zcell * Z)).
+
+Definition to_cell_n (c : zcell) : scell := let '(e, b, l) := c in (Z.to_nat e, Z.to_nat b, Z.to_nat l).
+Definition to_stg (s : zstg) : stg Z := let '(g, c, lo, v, hi) := s in mk_stg (Z.to_nat g) c lo v hi.
+Definition to_scope (sc : zscope) : scope :=
+  let '(e, b, l) := sc in
+  let m o := match o with Some x => Some (map Z.to_nat x) | None => None end in mk_scope (m e) (m b) (m l).
+Definition to_srule (r : zrule) : srule Z :=
+  let '(sc, ind, c, v, lo, hi) := r in mk_srule (to_scope sc) ind c v lo hi.
+
+Definition zmean (l : list Z) : Z := fold_left Z.add l 0 / Z.of_nat (length l).
+
+Section ScopeObs.
+  Variable dlo dhi : Z.
+  Variable indep_default chrono : bool.
+
+  Definition s_assign := assign_rule Z Z.ltb Z.eqb zmean dlo dhi indep_default.
+  Definition s_export := export_rules Z indep_default chrono.
+
+  Definition index_of (x : nat) (l : list nat) : Z :=
+    (fix go (l : list nat) (k : Z) := match l with [] => -1 | y :: t => if (x =? y)%nat then k else go t (k + 1) end) l 0.
+
+  Definition obs_table (t : table Z) : val :=
+    let order := group_ids Z false t in
+    VL (map (fun cs => let '(e, b, l) := fst cs in let s := snd cs in
+                       VL [znat e; znat b; znat l; VZ (index_of (g_id s) order); VB (g_const s);
+                           if g_const s then VN else VZ (g_lower s); VZ (g_val s); if g_const s then VN else VZ (g_upper s)]) t).
+
+  Definition obs_olist (o : option (list nat)) : val := match o with None => VN | Some l => VL (map znat l) end.
+  Definition obs_rule (r : srule Z) : val :=
+    VL [obs_olist (sc_e (ru_scope r)); obs_olist (sc_b (ru_scope r)); obs_olist (sc_l (ru_scope r));
+        match ru_indep r with None => VN | Some b => VB b end; VB (ru_const r);
+        voptZ (ru_value r); voptZ (ru_lower r); voptZ (ru_upper r)].
+
+  (** after each operation: the table, nfp, the exported rules, and the table / nfp a fresh
+      controller [t0] has after importing them *)
+  Definition obs_step (t0 : table Z) (nid0 : nat) (t : table Z) : val :=
+    let rules := s_export t in
+    VL [obs_table t; znat (nfp Z t); VL (map obs_rule rules);
+        match assign_rules Z Z.ltb Z.eqb zmean dlo dhi indep_default rules (t0, nid0) with
+        | Some (t', _) => VL [obs_table t'; znat (nfp Z t')]
+        | None => VE 2
+        end].
+
+  Fixpoint srun (t0 : table Z) (nid0 : nat) (tn : table Z * nat) (ops : list zsop) : list val :=
+    match ops with
+    | [] => []
+    | ZRule r :: rest =>
+        match s_assign (to_srule r) tn with
+        | Some tn' => obs_step t0 nid0 (fst tn') :: srun t0 nid0 tn' rest
+        | None => [VE 2]
+        end
+    | ZUpdate l :: rest =>
+        let t' := fold_left (fun t cv => set_value Z t (to_cell_n (fst cv)) (snd cv)) l (fst tn) in
+        obs_step t0 nid0 t' :: srun t0 nid0 (t', snd tn) rest
+    end.
+End ScopeObs.
+
+(** case = (dlower, dupper, independent_by_default, chrono export order, initial table, operations) *)
+Definition run_scase (c : Z * Z * bool * bool * list (zcell * zstg) * list zsop) : val :=
+  let '(dlo, dhi, ind, chrono, t0z, ops) := c in
+  let t0 := map (fun cs => (to_cell_n (fst cs), to_stg (snd cs))) t0z in
+  let nid0 := S (length t0) in
+  VL (obs_step dlo dhi ind chrono t0 nid0 t0 :: srun dlo dhi ind chrono t0 nid0 (t0, nid0) ops).
+
 Inductive anycase := ACalc (c : list cdesc * list Z * list zop) | ACtl (c : bool * list ddesc * list Z * list zcop)
-                   | ARule (c : bool * zsetting * zsetting).
+                   | ARule (c : bool * zsetting * zsetting)
+                   | AScope (c : Z * Z * bool * bool * list (zcell * zstg) * list zsop).
 Definition run_any (c : anycase) : val :=
-  match c with ACalc c => run_case c | ACtl c => run_ccase c | ARule c => run_rcase c end.
+  match c with ACalc c => run_case c | ACtl c => run_ccase c | ARule c => run_rcase c | AScope c => run_scase c end.
